@@ -77,11 +77,36 @@ def ends_ok(t):
     return not t[0].isspace() and not t[-1].isspace()
 
 
+def denotable(ch):
+    """may an HTML character reference denote this code point (otherwise it is replaced by U+FFFD by design)"""
+    o = ord(ch)
+    return not (o < 32 and ch != "\t" or 0x7F <= o <= 0x9F or 0xFDD0 <= o <= 0xFDEF or (o & 0xFFFF) >= 0xFFFE)
+
+
+def sweep_chars():
+    """every control, separator, blank, format and punctuation character (line ends and NUL excluded: a text is a
+    single line, NUL is replaced by design)"""
+    import unicodedata
+
+    out = []
+    for cp in range(1, 0x110000):
+        ch = chr(cp)
+        if ch in "\n\r" or 0xD800 <= cp <= 0xDFFF:
+            continue
+        cat = unicodedata.category(ch)
+        if cat in ("Cc", "Cf", "Zs", "Zl", "Zp") or cat[0] == "P" or ch.isspace() or cp in (0xFFFD, 0xFFFE, 0x10FFFF, 0xE000):
+            out.append(ch)
+    return out
+
+
+SWEEP_T = ["a{c}b", "a{c}*b", "{c}a", "a{c}", "a {c}{c} b"]
+
+
 def one_t(md, c, t, acc, sub="t"):
     xhtml = md.options["xhtmlOut"]
     trimmed = ends_ok(t)
     for form, f in FORMS.items():
-        if form != "bs" and any(ord(ch) < 32 and ch != "\t" for ch in t):
+        if form != "bs" and not all(denotable(ch) for ch in t):
             continue
         e = f(t)
         h = esc_html(t)
@@ -146,7 +171,8 @@ def ref_case(md, c, ref, value, acc, label):
 def bounds(tier):
     return {"alphabet": CH, "L": 4 if tier == "thorough" else 3, "forms": list(FORMS), "configs": CFGS,
             "contexts": ["p", "h", "em", "strong", "s", "em_in_link", "link", "img", "title", "td", "td_open_row"], "named_references": len(NAMED),
-            "all_html5_names": len(all_named()), "numeric_points": [hex(x) for x in NUMERIC_POINTS],
+            "all_html5_names": len(all_named()),
+            "character_sweep": {"characters": len(sweep_chars()), "what": "every Cc/Cf/Zs/Zl/Zp/P* character and every str.isspace() character except LF, CR, NUL", "texts": SWEEP_T}, "numeric_points": [hex(x) for x in NUMERIC_POINTS],
             "numeric_spellings": "decimal padded to 7 digits, hex (x/X, both cases) padded to 6 digits"}
 
 
@@ -164,6 +190,9 @@ def shards(tier):
         for i in range(0, len(names), 150):
             sh.append(("names", i, min(len(names), i + 150), ci))
         sh.append(("numeric", ci))
+        n = len(sweep_chars())
+        for i in range(0, n, 60):
+            sh.append(("chars", i, min(n, i + 60), ci))
     return sh
 
 
@@ -175,6 +204,15 @@ def run_shard(sh, acc):
         for n, v in all_named()[lo:hi]:
             ref_case(md, c, "&" + n, v, acc, "named")
         acc.sample("names", {"cfg": c, "ref": "&" + all_named()[lo][0], "value": all_named()[lo][1]}, 1)
+        return
+    if sh[0] == "chars":
+        _, lo, hi, ci = sh
+        c = CFGS[ci]
+        md = C.build(c)
+        for ch in sweep_chars()[lo:hi]:
+            for tt in SWEEP_T:
+                one_t(md, c, tt.replace("{c}", ch), acc)
+        acc.sample("chars", {"cfg": c, "t": "a\x0cb", "form": "bs", "ctx": "h"}, 1)
         return
     if sh[0] == "numeric":
         c = CFGS[sh[1]]
